@@ -625,8 +625,8 @@ package main
 //@   assert_after (*orderedmap.OrderedMap).Get#3 keys-so-far: ChangedOnlyZ(A, om(cmd))
 //@   assert_after (*orderedmap.OrderedMap).Get#5 keys-so-far: ChangedOnlyZ(A, om(cmd))
 //@   assert_after (*orderedmap.OrderedMap).Get#7 keys-so-far: ChangedOnlyZ(A, om(cmd))
-//@   assert_after (*orderedmap.OrderedMap).Get#9 keys-so-far: ChangedOnlyZ(A, om(cmd))
-//@   assert_after (*orderedmap.OrderedMap).Get#11 keys-so-far: ChangedOnlyZ(A, om(cmd))
+//@   assert_after (*orderedmap.OrderedMap).Get#10 keys-so-far: ChangedOnlyZ(A, om(cmd))
+//@   assert_after (*orderedmap.OrderedMap).Get#12 keys-so-far: ChangedOnlyZ(A, om(cmd))
 //@   ensures only-this-map: unchangedBelowExcept("Mem:OMap", cmd)
 //@   ensures only-zone-keys-change {C04,C03}: implies(cmd != nil, ChangedOnlyZ(A, om(cmd)))
 //@   ensures zone-query-map {C01}: implies(cmd != nil, ZoneMap(c, shouldEagerRedact, A, om(cmd), "query"))
@@ -639,6 +639,7 @@ package main
 //@   ensures zone-q-map {C01}: implies(cmd != nil, ZoneMap(c, shouldEagerRedact, A, om(cmd), "q"))
 //@   ensures zone-u-map {C01}: implies(cmd != nil, ZoneMap(c, shouldEagerRedact, A, om(cmd), "u"))
 //@   ensures zone-u-array {C01}: implies(cmd != nil, ZoneArr(c, shouldEagerRedact, A, om(cmd), "u"))
+//@   ensures zone-arrayFilters-array {C01}: implies(cmd != nil, ZoneArr(c, shouldEagerRedact, A, om(cmd), "arrayFilters"))
 //@   ensures zone-documents-array {C01}: implies(cmd != nil && omIdx(A, "insert") >= 0, ZoneArr(c, shouldEagerRedact, A, om(cmd), "documents"))
 //@   ensures zone-pipeline-array {C01,C03}: implies(cmd != nil && omIdx(A, "pipeline") >= 0 && isArr(omVal(A, omIdx(A, "pipeline"))), isArr(omVal(om(cmd), omIdx(A, "pipeline"))) && len(arrOf(omVal(om(cmd), omIdx(A, "pipeline")))) == len(arrOf(omVal(A, omIdx(A, "pipeline")))))
 //@   defines command-relation {C01}: RelC(c, shouldEagerRedact, cmd) := true
